@@ -100,6 +100,9 @@ template <class T, glm::qualifier Q, int L> static void reg_arith_int() {
 	add_op(nmv<T, Q, L>("findLSB"), any1, spec("i#", tl, L), 'B', 'B', 0, FN { ST(out, glm::findLSB(LV::ld(in))); });
 	add_op(nmv<T, Q, L>("findMSB"), any1, spec("i#", tl, L), 'B', 'B', 0, FN { ST(out, glm::findMSB(LV::ld(in))); });
 }
+// a packed vector placed sizeof(T) bytes after a 64-byte boundary, followed by a guard element (a store wider than the object changes it)
+template <int L, class T> struct alignas(64) OffBuf { T pad; glm::vec<L, T, glm::packed_highp> p; T guard; OffBuf() : pad(T(0)), p(T(0)), guard((T)77) {} };
+static inline void launder_ptr(void* q) { __asm__ volatile("" : : "r"(q) : "memory"); }
 // constructors from mixed shapes (the aligned float/int/uint vec3/vec4 constructors are SIMD specialisations) and truncating conversions
 template <class T, glm::qualifier Q> static void reg_ctors() {
 	const char tl = (char)SA<T>::L; const char dom = (tl == 'f' || tl == 'd') ? 'G' : 'I';
@@ -123,8 +126,56 @@ template <class T, glm::qualifier Q> static void reg_ctors() {
 	add_op(nm<T, Q>("from_packed_lowp", "vec2"), sp("@$2"), sp("@2"), 'B', 'B', 0, FN { glm::vec<2, T, glm::packed_lowp> p(SA<T>::get(in[0]), SA<T>::get(in[1])); V2 a(p); ST(out, a); });
 	add_op(nm<T, Q>("to_packed_highp", "vec3"), sp("@$3"), sp("@3"), 'B', 'B', 0, FN { V3 a = VL<3, T, Q>::ld(in); glm::vec<3, T, glm::packed_highp> p(a); for (int i = 0; i < 3; ++i) SA<T>::put(out[i], p[i]); });
 	add_op(nm<T, Q>("to_packed_highp", "vec4"), sp("@$4"), sp("@4"), 'B', 'B', 0, FN { V4 a = VL<4, T, Q>::ld(in); glm::vec<4, T, glm::packed_highp> p(a); for (int i = 0; i < 4; ++i) SA<T>::put(out[i], p[i]); });
+	// the same conversions with the packed object at an address that is only aligned for T (alignof(vec<L, T, packed_*>) == alignof(T)):
+	// an aligned SIMD load or store on it is a misaligned access (UBSan alignment check, SIGSEGV on movdqa/movaps at -O0)
+	add_op(nm<T, Q>("from_packed_highp_unaligned", "vec4"), sp("@$4"), sp("@4"), 'B', 'B', 0, FN { OffBuf<4, T> b; for (int i = 0; i < 4; ++i) b.p[i] = SA<T>::get(in[i]); launder_ptr(&b); V4 a(b.p); ST(out, a); });
+	add_op(nm<T, Q>("from_packed_highp_unaligned", "vec3"), sp("@$3"), sp("@3"), 'B', 'B', 0, FN { OffBuf<3, T> b; for (int i = 0; i < 3; ++i) b.p[i] = SA<T>::get(in[i]); launder_ptr(&b); V3 a(b.p); ST(out, a); });
+	add_op(nm<T, Q>("from_packed_highp_unaligned", "vec2"), sp("@$2"), sp("@2"), 'B', 'B', 0, FN { OffBuf<2, T> b; for (int i = 0; i < 2; ++i) b.p[i] = SA<T>::get(in[i]); launder_ptr(&b); V2 a(b.p); ST(out, a); });
+	add_op(nm<T, Q>("to_packed_highp_unaligned", "vec4"), sp("@$4"), sp("@4"), 'B', 'B', 0, FN { V4 a = VL<4, T, Q>::ld(in); OffBuf<4, T> b; launder_ptr(&b); new (&b.p) glm::vec<4, T, glm::packed_highp>(a); launder_ptr(&b); for (int i = 0; i < 4; ++i) SA<T>::put(out[i], b.p[i]); });
+	add_op(nm<T, Q>("to_packed_highp_unaligned", "vec3"), sp("@$3"), sp("@3"), 'B', 'B', 0, FN { V3 a = VL<3, T, Q>::ld(in); OffBuf<3, T> b; launder_ptr(&b); new (&b.p) glm::vec<3, T, glm::packed_highp>(a); launder_ptr(&b); for (int i = 0; i < 3; ++i) SA<T>::put(out[i], b.p[i]); if (b.guard != (T)77) SA<T>::put(out[0], (T)0 - SA<T>::get(out[0]) + (T)13); });
 	add_op(nm<T, Q>("copy_assign_index", "vec4"), sp("@$4"), sp("@4"), 'B', 'B', 0, FN { V4 a = VL<4, T, Q>::ld(in); V4 b; b = a; V4 c2; for (int i = 0; i < 4; ++i) c2[i] = b[3 - i]; ST(out, c2); });
 	add_op(nm<T, Q>("copy_assign_index", "vec3"), sp("@$3"), sp("@3"), 'B', 'B', 0, FN { V3 a = VL<3, T, Q>::ld(in); V3 b; b = a; V3 c2; for (int i = 0; i < 3; ++i) c2[i] = b[2 - i]; ST(out, c2); });
+}
+// component selection: with GLM_FORCE_SWIZZLE in operator form (needs the MS-extension flag, i.e. a SIMD build) these are the
+// swizzle proxies, whose float/int/uint aligned versions are SIMD shuffles of the *source* storage; everywhere else the same
+// selection is written with constructors, so the operation exists in every library and must agree bit for bit
+#if GLM_CONFIG_SWIZZLE == GLM_SWIZZLE_OPERATOR
+#define SWZ(v, pat, ...) (v.pat)
+#else
+#define SWZ(v, pat, ...) (__VA_ARGS__)
+#endif
+template <class T, glm::qualifier Q> static void reg_swz() {
+	const char tl = (char)SA<T>::L; const char dom = (tl == 'f' || tl == 'd') ? 'G' : 'I';
+	auto sp = [&](const char* s) { std::string o; for (; *s; ++s) o += (*s == '@') ? tl : (*s == '$') ? dom : *s; return strdup(o.c_str()); };
+	typedef glm::vec<2, T, Q> V2; typedef glm::vec<3, T, Q> V3; typedef glm::vec<4, T, Q> V4;
+	if constexpr (!std::is_same<T, unsigned>::value)  // two-letter operator swizzles of aligned uint vectors do not compile (known finding of C17)
+		add_op(nm<T, Q>("swz_v2_yx", "vec2"), sp("@$2"), sp("@2"), 'B', 'B', 0, FN { V2 v = VL<2, T, Q>::ld(in); launder_ptr(&v); V2 r = SWZ(v, yx, V2(v.y, v.x)); ST(out, r); });
+	// (a three-letter operator swizzle of a vec2 does not compile at all: known finding of C17)
+	add_op(nm<T, Q>("swz_v2_xyxy", "vec4"), sp("@$2"), sp("@4"), 'B', 'B', 0, FN { V2 v = VL<2, T, Q>::ld(in); launder_ptr(&v); V4 r = SWZ(v, xyxy, V4(v.x, v.y, v.x, v.y)); ST(out, r); });
+	if constexpr (!std::is_same<T, unsigned>::value)  // two-letter operator swizzles of aligned uint vectors do not compile (known finding of C17)
+		add_op(nm<T, Q>("swz_v3_zy", "vec2"), sp("@$3"), sp("@2"), 'B', 'B', 0, FN { V3 v = VL<3, T, Q>::ld(in); launder_ptr(&v); V2 r = SWZ(v, zy, V2(v.z, v.y)); ST(out, r); });
+	add_op(nm<T, Q>("swz_v3_zyx", "vec3"), sp("@$3"), sp("@3"), 'B', 'B', 0, FN { V3 v = VL<3, T, Q>::ld(in); launder_ptr(&v); V3 r = SWZ(v, zyx, V3(v.z, v.y, v.x)); ST(out, r); });
+	add_op(nm<T, Q>("swz_v3_xxzz", "vec4"), sp("@$3"), sp("@4"), 'B', 'B', 0, FN { V3 v = VL<3, T, Q>::ld(in); launder_ptr(&v); V4 r = SWZ(v, xxzz, V4(v.x, v.x, v.z, v.z)); ST(out, r); });
+	if constexpr (!std::is_same<T, unsigned>::value)  // two-letter operator swizzles of aligned uint vectors do not compile (known finding of C17)
+		add_op(nm<T, Q>("swz_v4_wx", "vec2"), sp("@$4"), sp("@2"), 'B', 'B', 0, FN { V4 v = VL<4, T, Q>::ld(in); launder_ptr(&v); V2 r = SWZ(v, wx, V2(v.w, v.x)); ST(out, r); });
+	add_op(nm<T, Q>("swz_v4_xzy", "vec3"), sp("@$4"), sp("@3"), 'B', 'B', 0, FN { V4 v = VL<4, T, Q>::ld(in); launder_ptr(&v); V3 r = SWZ(v, xzy, V3(v.x, v.z, v.y)); ST(out, r); });
+	add_op(nm<T, Q>("swz_v4_wzyx", "vec4"), sp("@$4"), sp("@4"), 'B', 'B', 0, FN { V4 v = VL<4, T, Q>::ld(in); launder_ptr(&v); V4 r = SWZ(v, wzyx, V4(v.w, v.z, v.y, v.x)); ST(out, r); });
+	// stores through a swizzle, and arithmetic on a swizzle
+	add_op(nm<T, Q>("swz_store_v3_zyx", "vec3"), sp("@$3 @$3"), sp("@3"), 'B', 'B', 0, FN { V3 v = VL<3, T, Q>::ld(in), w = VL<3, T, Q>::ld(in + 3); launder_ptr(&v);
+#if GLM_CONFIG_SWIZZLE == GLM_SWIZZLE_OPERATOR
+		v.zyx = w;
+#else
+		v = V3(w.z, w.y, w.x);
+#endif
+		ST(out, v); });
+	if constexpr (!std::is_same<T, unsigned>::value)  // two-letter operator swizzles of aligned uint vectors do not compile (known finding of C17)
+		add_op(nm<T, Q>("swz_store_v4_yx", "vec4"), sp("@$4 @$2"), sp("@4"), 'B', 'B', 0, FN { V4 v = VL<4, T, Q>::ld(in); V2 w = VL<2, T, Q>::ld(in + 4); launder_ptr(&v);
+#if GLM_CONFIG_SWIZZLE == GLM_SWIZZLE_OPERATOR
+		v.yx = w;
+#else
+		v = V4(w.y, w.x, v.z, v.w);
+#endif
+		ST(out, v); });
 }
 template <class T> struct sign_ok { static const bool v = std::numeric_limits<T>::is_signed; };
 template <class T, glm::qualifier Q, int L> static void reg_sign_int() {
@@ -138,8 +189,10 @@ template <glm::qualifier Q> static void reg_q() {
 	reg_arith_int<int, Q, 1>(); reg_arith_int<int, Q, 2>(); reg_arith_int<int, Q, 3>(); reg_arith_int<int, Q, 4>();
 	reg_sign_int<int, Q, 2>(); reg_sign_int<int, Q, 3>(); reg_sign_int<int, Q, 4>();
 	reg_ctors<float, Q>(); reg_ctors<int, Q>();
+	reg_swz<float, Q>(); reg_swz<int, Q>();
 #else
 	reg_ctors<double, Q>(); reg_ctors<unsigned, Q>();
+	reg_swz<unsigned, Q>();  // operator swizzles of aligned double vectors do not compile (uninstantiable group recorded by C17)
 	reg_arith_float<double, Q, 1>(); reg_arith_float<double, Q, 2>(); reg_arith_float<double, Q, 3>(); reg_arith_float<double, Q, 4>();
 	reg_arith_int<unsigned, Q, 1>(); reg_arith_int<unsigned, Q, 2>(); reg_arith_int<unsigned, Q, 3>(); reg_arith_int<unsigned, Q, 4>();
 #endif
